@@ -88,15 +88,15 @@ def typestate(fn: Function, rep: Report, rule: str = "R8.1") -> int:
     n_obl = 0
     arg_texts: Set[str] = set()
     n_enter = n_exit = 0
-    for nd in cfg.nodes:
-        for k, c in _events(nd.ast):
-            if nd.copy:
-                continue
-            n_enter += k == "enter"
-            n_exit += k == "exit"
-            # argument identity: the name argument is the first positional one
-            if c.args:
-                arg_texts.add(norm(c.args[0]))
+    for c in calls_in(fn.node):
+        k = _callee_attr(c)
+        if k not in (ENTER, EXIT):
+            continue
+        n_enter += k == ENTER
+        n_exit += k == EXIT
+        # argument identity: the name argument is the first positional one
+        if c.args:
+            arg_texts.add(norm(c.args[0]))
     rep.count(f"{rule}:{fn.qualname}:enter_calls", n_enter)
     rep.count(f"{rule}:{fn.qualname}:exit_calls", n_exit)
     rep.count(f"{rule}:{fn.qualname}:cfg_nodes", len(cfg.nodes))
